@@ -40,6 +40,24 @@ CHECKS = {
         "Typed receive meeting the other frame kind or the connect event is left open (accepted variation). Server delivers connect first. "
         "asyncio scheduling is irrelevant: the wrapper never suspends except in the server's receive.",
     ),
+    "C13": (
+        "exploration",
+        "exhaustive code-point sweep over every mutation path + Hypothesis mutation histories against a dict model, emitted headers inspected through WSGI/ASGI gateways",
+        "Each of the header mapping's mutation paths (assignment, append, update x4 forms, setdefault) is exercised with every code point 0..255 "
+        "inside key and value (exhaustive) and with generated histories of up to 12 mutations over a hostile alphabet; cookies with hostile "
+        "names/values and redirect targets (str and URL) are added and the response is sent through strict WSGI and ASGI gateways; the "
+        "emitted header lines are inspected for CR/LF/NUL, extra cookie attributes and Location cleanliness.",
+        "Constructor-supplied headers are outside the statement. Text above U+00FF may be rejected instead of escaped. Redirect targets compared after one percent-decoding.",
+    ),
+    "C16": (
+        "exploration",
+        "exhaustive code-point sweep + Hypothesis cookie sets: serialise through both response stacks, read back through both request stacks (round-trip), Expires bracketed by wall-clock under several process time zones",
+        "Every code point 0..255 in six positions of a cookie value (exhaustive) and generated sets of 1..4 cookies with hostile Latin-1 values are "
+        "set on WSGI and ASGI responses, the emitted Set-Cookie lines are checked (ASCII, attributes) and their name=value pairs are sent "
+        "back alone and among foreign cookies to both request classes; Expires/Max-Age/delete_cookie are checked under 9 process time "
+        "zones (POSIX TZ strings and tz database names) set with tzset().",
+        "Expires compared with a [floor(t0+e), floor(t1+e)] bracket around the call. Cookie names in one response are distinct.",
+    ),
     "C17": (
         "exploration",
         "exhaustive enumeration of operation sequences against a list-of-pairs model, plus Hypothesis sequences up to 50 operations and query-string round-trips",
